@@ -69,7 +69,7 @@ ShadowFocusAddrs(sh, a0, a1) ==
           ELSE {} : k \in 1 .. Len(sh) }
 ShadowCases ==
   { x \in { <<slow, v, br, sh, img>> : slow \in BOOLEAN, v \in {0, -1}, br \in ShadowBranches,
-                                     sh \in UpTo(ShadowIns, IF Size = "large" THEN 2 ELSE 1), img \in {"zero", "ones"} } :
+                                     sh \in {<<>>} \cup UpTo(ShadowIns, IF Size = "large" THEN 2 ELSE 1), img \in {"zero", "ones"} } :   \* <<>>: a branch to the very next instruction
       (x[1] => x[2] = 0) /\ (~x[1] => x[5] = "zero") }
 ShadowCase(x) ==
   LET slow == x[1] v == x[2] br == x[3] sh == x[4] img == x[5]
@@ -361,11 +361,24 @@ MisCase(x) ==
       fin == Final(p, r0, "ramp", 256, 64)
   IN CaseRec("Misaligned", p, r0, "ramp", 256, fin, {"t0", "t2"}, 64 .. 75, Tags(p, fin), [op |-> x[1], off |-> x[2]])
 
-Cases == CASE Family = "Shadow" -> ShadowCases [] Family = "Shadow2" -> Shadow2Cases [] Family = "Tail2" -> Tail2Cases [] Family = "Misaligned" -> MisCases [] Family = "Repo" -> RepoCases [] Family = "Unroll" -> UnrollCases [] Family = "Call" -> CallCases [] Family = "LineFill" -> LineFillCases
+(* ------------------------------- Oob (C08 only) ------------------------------ *)
+(* Programs that touch bytes beyond the end of memory.  The sequential machine gives them no meaning   *)
+(* (status "oob"), so no property about results applies - but C08 does: whatever a variant does with    *)
+(* them (zero-fill, panic), it must do the same every time, also after other machines ran in the       *)
+(* process.  read-modify-write of a byte/word beyond memory, then a second access to that line.         *)
+OobCases == { <<base, off, ld, st>> : base \in {256, 320, 1024}, off \in {0, 4, 60}, ld \in {"lw", "lb"}, st \in {"sw", "sb"} }
+OobCase(x) ==
+  LET p == <<I(x[3], "t0", "a0", "zero", x[2], 0), Addi("t0", "t0", 1), I(x[4], "zero", "a0", "t0", x[2], 0),
+             I(x[3], "t1", "a0", "zero", x[2], 0), I("lw", "t2", "a0", "zero", 0, 0), Addi("t2", "t2", 3)>>
+      r0 == Regs0(x[1], 128, 0, 5, 6, 0)
+      fin == Final(p, r0, "ramp", 256, 64)
+  IN CaseRec("Oob", p, r0, "ramp", 256, fin, {}, {}, {"out_of_range"}, [base |-> x[1], off |-> x[2]])
+
+Cases == CASE Family = "Oob" -> OobCases [] Family = "Shadow" -> ShadowCases [] Family = "Shadow2" -> Shadow2Cases [] Family = "Tail2" -> Tail2Cases [] Family = "Misaligned" -> MisCases [] Family = "Repo" -> RepoCases [] Family = "Unroll" -> UnrollCases [] Family = "Call" -> CallCases [] Family = "LineFill" -> LineFillCases
            [] Family = "RegDep" -> RegDepCases [] Family = "Tail" -> TailCases
            [] Family = "MemDep" -> MemDepCases [] Family = "MemWalk" -> WalkCases [] Family = "Err" -> ErrCases
            [] Family = "Timing" -> TimingCases
-MkCase(x) == CASE Family = "Shadow" -> ShadowCase(x) [] Family = "Shadow2" -> Shadow2Case(x) [] Family = "Tail2" -> Tail2Case(x) [] Family = "Misaligned" -> MisCase(x) [] Family = "Repo" -> RepoCase(x) [] Family = "Unroll" -> UnrollCase(x) [] Family = "Call" -> CallCase(x) [] Family = "LineFill" -> LineFillCase(x) [] Family = "RegDep" -> RegDepCase(x) [] Family = "Tail" -> TailCase(x)
+MkCase(x) == CASE Family = "Oob" -> OobCase(x) [] Family = "Shadow" -> ShadowCase(x) [] Family = "Shadow2" -> Shadow2Case(x) [] Family = "Tail2" -> Tail2Case(x) [] Family = "Misaligned" -> MisCase(x) [] Family = "Repo" -> RepoCase(x) [] Family = "Unroll" -> UnrollCase(x) [] Family = "Call" -> CallCase(x) [] Family = "LineFill" -> LineFillCase(x) [] Family = "RegDep" -> RegDepCase(x) [] Family = "Tail" -> TailCase(x)
                [] Family = "MemDep" -> MemDepCase(x) [] Family = "MemWalk" -> WalkCase(x) [] Family = "Err" -> ErrCase(x)
                [] Family = "Timing" -> TimingCase(x)
 
@@ -375,7 +388,7 @@ Parts == IF Family = "MemWalk" THEN Mixes \X {1, 2, 4}
 Init == phase = "gen" /\ c \in {[fam |-> "none", part |-> p] : p \in Parts}
 Next == /\ phase = "gen" /\ phase' = "done"
         /\ \E x \in Cases : (Family = "MemWalk" => <<x[1], x[2]>> = c.part)
-                             /\ (Family = "Repo" => <<x[1], x[2] % 3>> = c.part) /\ LET k == MkCase(x) IN (k.misal => Family = "Misaligned") /\ k.exp.status \in {"ret", "end", "err"} /\ c' = k
+                             /\ (Family = "Repo" => <<x[1], x[2] % 3>> = c.part) /\ LET k == MkCase(x) IN (k.misal => Family = "Misaligned") /\ (k.exp.status \in {"ret", "end", "err"} \/ Family = "Oob") /\ c' = k
 Spec == Init /\ [][Next]_vars
 Emit == phase = "done" => PrintT(ToJson(c))
 =======================================================================
